@@ -41,11 +41,14 @@ CLAIMED = {
     "C12": dict(ref="DESIGN.md §3 C12", note=NOTE + "; partial: quoting functions only; the shell-lexing reference is trusted",
                 text="QuoteEntry (sh and fish escapers) and escapeSingleQuote are proved, for every entry over an alphabet of shell metacharacters up to the bound, to be "
                      "read back by a model of shell word lexing as exactly one word equal to the entry. Placeholder discovery/expansion and the real shells are NOT claimed."),
+    "C16": dict(ref="DESIGN.md §3 C16", note=NOTE + "; partial: request-handling logic only; sockets, timeouts and action execution are outside",
+                text="The authorisation / framing logic of handleHttpRequest is decided for all requests assembled from the token grammar (any header order, key, "
+                     "content length, body, early close) under every cut of the stream into reads, with the real bufio.Scanner and split closure."),
 }
 PENDING = "check not built yet in this session (planned, see DESIGN.md §3)"
 NA = {
       "C07": PENDING, "C09": PENDING,
-      "C16": PENDING, "C19": PENDING,
+       "C19": PENDING,
     "C14": "terminal modes, child processes, signals and the goroutine/channel render loop are OS effects and schedules, not a bounded computation the SSA→SMT encoder can make symbolic (DESIGN.md §5)",
     "C15": "relation between the whole Terminal state and the byte stream written through tui.Window; thousands of lines of drawing code on uniseg tables with no leaf whose correctness implies the property (DESIGN.md §5)",
     "C17": "option/bind parsing is decided inside Go's regexp engine (a 400-character alternation and regexes compiled from input); a symbolic regexp is out of reach and contract stubs would create unreal states (DESIGN.md §5)",
